@@ -1,5 +1,6 @@
 import Plotink.Proofs.C04Latch
 import Plotink.Model.Ebb3Params
+import Plotink.Proofs.Ebb3GenLift
 
 /-! # C04 — the EBB3 connection object latches its first error and then transmits nothing
 
@@ -106,5 +107,81 @@ theorem C04_unconnected {σ : Type} (P : Params) (D : Device σ) (pre : List Cal
 
 example : (finalWorld srcParams scriptDev [.disconnect]
     ⟨{ St.init with port := true }, ⟨[], []⟩, [], 0⟩).st.port = false := by decide
+
+/-! ## The same theorems about the *regenerated* code
+
+`Gen.EBB3_<m>` / `Gen.EBBMotionWrap_<m>` are regenerated from `ebb3_serial.py` / `ebb3_motion.py` on every run by
+`translator/pyio2lean.py`; `Ebb3Gen.genRun fuel c w` calls the regenerated method of the call `c` on the world `w`
+(attributes as Python values, the port as a script with exception classes).  `Ebb3Gen.Covered fuel c`: the method of
+`c` is in the bridged set **S** (`Ebb3Gen.inS`: 36 of the 38 public methods — all 32 request methods, `record_error`,
+`disconnect`, `parse_version`, `min_version`; not yet `find_first` and `connect`), request / nickname texts
+are ASCII, and `fuel` covers the loops.  `Ebb3Gen.Good w` is the domain (attribute types, faults of serial-I/O
+classes, ASCII lines).  Each theorem follows from its hand-model counterpart through `Ebb3Gen.gen_bridge`. -/
+
+open Ebb3Gen in
+/-- **Blocked (regenerated code).** With no port or with an error recorded, every regenerated request method of S
+returns its failure value; attributes, script, bytes written and read count (everything `absWorld` sees) are
+unchanged. -/
+theorem C04_gen_blocked (fuel : Nat) (c : Call) (hc : Covered fuel c) (hr : c.method.isRequest = true)
+    (w : PyObj.World Gen.EBB3_Obj) (hg : Good w) (hb : w.obj.port = .none ∨ ∃ e, w.obj.err = .str e) :
+    ∃ w', genRun fuel c w = .val (encVal (blockedVal c.method)) w' ∧ absWorld w' = absWorld w ∧
+      w'.port.log = w.port.log ∧ w'.port.nread = w.port.nread ∧ w'.obj.err = w.obj.err := by
+  have hbl := blocked_of_attrs w hb
+  have hp : Pre c w := by
+    cases c <;> simp only [Pre] <;> first | trivial | (intro h; rw [hbl] at h; cases h)
+  have hsim := gen_bridge fuel c hc w hg hp
+  rw [run_blocked srcParams scriptDev c hr (absWorld w) hbl] at hsim
+  obtain ⟨w', h1, h2, hg'⟩ := sim_val hsim
+  refine ⟨w', h1, h2, congrArg (·.out) h2, congrArg (·.nreads) h2, ?_⟩
+  have he : absOpt w'.obj.err = absOpt w.obj.err := congrArg (·.st.err) h2
+  have h1' := hg'.obj.err
+  have h2' := hg.obj.err
+  revert he h1' h2'
+  cases w'.obj.err <;> cases w.obj.err <;> simp [absOpt, IsOptStr]
+
+open Ebb3Gen in
+/-- **First error wins (regenerated code).** No regenerated method of S — whether it returns or raises — replaces
+a recorded message. -/
+theorem C04_gen_first_wins (fuel : Nat) (c : Call) (hc : Covered fuel c) (w : PyObj.World Gen.EBB3_Obj) (hg : Good w)
+    (hp : Pre c w) (e : Str) (he : w.obj.err = .str e) :
+    ∃ w', outWorld (genRun fuel c w) = some w' ∧ w'.obj.err = .str e := by
+  obtain ⟨w', h1, h2, hg'⟩ := sim_world (gen_bridge fuel c hc w hg hp)
+  refine ⟨w', h1, ?_⟩
+  have hk := run_keepsErr srcParams scriptDev c (absWorld w) e (by simp [absWorld, absSt, he, absOpt])
+  rw [← h2] at hk
+  exact absOpt_str hk
+
+open Ebb3Gen in
+/-- **Histories (regenerated code).** For every history `pre ++ post` of calls of methods in S on the regenerated
+code (any script of the domain, side conditions `HistPre` for `reboot`/`bootload`): if an error `e` is recorded after
+`pre`, then after the whole history — hence, applying this to every prefix of `post`, after every call of `post` —
+the error is still `e`, not one byte more has been handed to `write`, not one more `readline` was made and the
+script is untouched; and (`C04_gen_blocked`) every request call of `post` returned its failure value. -/
+example : ∃ (w : PyObj.World Gen.EBB3_Obj) (c : Call), Ebb3Gen.Good w ∧ Ebb3Gen.Covered 26 c ∧ c.method.isRequest = true ∧
+    (∃ e, w.obj.err = .str e) :=
+  ⟨⟨{ Gen.EBB3_Obj.init with port := .port, err := .str ['e'] }, ⟨[], [], [], 0⟩, {}⟩, .xy_move 1 2 3,
+    ⟨⟨Or.inl rfl, trivial, trivial, Or.inl rfl, trivial, trivial, trivial⟩, (fun _ h => nomatch h), (fun _ h => nomatch h),
+      (fun _ h => nomatch h)⟩,
+    ⟨rfl, trivial, Nat.le_refl _⟩, rfl, ⟨_, rfl⟩⟩
+
+open Ebb3Gen in
+theorem C04_gen_history (fuel : Nat) (pre post : List Call) (w : PyObj.World Gen.EBB3_Obj)
+    (hc : ∀ c ∈ pre ++ post, Covered fuel c) (hg : Good w) (hp : HistPre fuel (pre ++ post) w)
+    (w1 : PyObj.World Gen.EBB3_Obj) (h1 : genFinal fuel pre w = some w1) (e : Str) (he : w1.obj.err = .str e) :
+    ∃ w2, genFinal fuel (pre ++ post) w = some w2 ∧ w2.obj.err = .str e ∧
+      w2.port.log = w1.port.log ∧ w2.port.nread = w1.port.nread ∧
+      (absWorld w2).dev = (absWorld w1).dev := by
+  obtain ⟨w2, h2, h3, hg2⟩ := gen_final_sim fuel (pre ++ post) w hc hg hp
+  obtain ⟨w1', h1', h1abs, -, -⟩ := gen_prefix_sim fuel pre post w hc hg hp
+  rw [h1] at h1'
+  injection h1' with h1'
+  subst h1'
+  have hm : (finalWorld srcParams scriptDev pre (absWorld w)).st.err = some e := by
+    rw [← h1abs]; simp [absWorld, absSt, he, absOpt]
+  have hq := finalWorld_quiet srcParams scriptDev post _ e hm
+    (fun c hc' => inS_ne_connect (hc c (by simp [hc'])).inS)
+  rw [← finalWorld_append, ← h3, ← h1abs] at hq
+  refine ⟨w2, h2, absOpt_str hq.2.2.2, hq.1, hq.2.1, hq.2.2.1⟩
+
 
 end Plotink
